@@ -492,6 +492,7 @@ type loopMods struct {
 	regions map[string]bool
 	all     bool
 	reads   bool // the body may read input (the ghost tape cursor may move)
+	writes  bool // the body may write output (the ghost output cursor may move)
 }
 
 func (x *Exec) loopModSet(li *loopInfo) *loopMods {
@@ -531,6 +532,7 @@ func (x *Exec) loopModSet(li *loopInfo) *loopMods {
 	lm.regions = ms.Regions
 	lm.all = ms.All
 	lm.reads = ms.Reads || ms.All
+	lm.writes = ms.Writes || ms.All
 	return lm
 }
 
@@ -844,6 +846,9 @@ func (x *Exec) enterLoop(li *loopInfo, edges []edgeState) *State {
 	}
 	if lm.reads && !lm.all {
 		x.c.havocTpos(st, x.c.region(st, "$tpos"))
+	}
+	if lm.writes && !lm.all {
+		x.c.havocOpos(st)
 	}
 	if lm.all {
 		x.c.havocAll(st)
